@@ -5,7 +5,7 @@
 //! P-level oracles on the REAL code only:
 //!  (a) compilation (`Pipeline::new`) terminates, does not panic, does not hang;
 //!  (b) rejected ⇒ `Pipeline::new` returned Err, every reported range [a,b) satisfies
-//!      a ≤ b ≤ len and both ends are char boundaries, nothing on stdout;
+//!      a ≤ b ≤ number of characters of the query (the unit annotate-snippets uses), nothing on stdout;
 //!  (c) accepted ⇒ nothing ignored: no Error node in the AST; the AST rendered back to a canonical
 //!      text re-parses to the same AST; original and canonical text have the same multiset of
 //!      identifier/number/string tokens (modulo the documented synonyms) and the same number of
@@ -214,8 +214,13 @@ fn search_low(s: &Search) -> Option<String> {
             }
         }
         Search::Not(x) => format!("NOT {}", search_low(x)?),
-        Search::And(v) if v.len() == 2 => format!("({} AND {})", search_low(&v[0])?, search_low(&v[1])?),
-        Search::Or(v) if v.len() == 2 => format!("({} OR {})", search_low(&v[0])?, search_low(&v[1])?),
+        Search::And(v) | Search::Or(v) if v.len() >= 2 => {
+            let mut parts = vec![];
+            for x in v {
+                parts.push(search_low(x)?);
+            }
+            format!("({})", parts.join(if matches!(s, Search::And(_)) { " AND " } else { " OR " }))
+        }
         _ => return None,
     })
 }
@@ -267,7 +272,7 @@ fn aggfn_text(f: &AggregateFunction) -> Option<String> {
     })
 }
 
-fn inline_text(i: &InlineOperator) -> Option<String> {
+fn inline_text(i: &InlineOperator, split_as: bool) -> Option<String> {
     Some(match i {
         InlineOperator::Json { input_column: None } => "json".into(),
         InlineOperator::Json { input_column: Some(e) } => format!("json from {}", rx(e, 0)?),
@@ -311,7 +316,7 @@ fn inline_text(i: &InlineOperator) -> Option<String> {
             }
             s.push_str(&format!(" on {}", quote(separator)));
             match (input_column, output_column) {
-                (Some(a), Some(b)) if a == b => {}
+                (Some(a), Some(b)) if a == b && !split_as => {}
                 (_, Some(b)) => s.push_str(&format!(" as {}", rx(b, 0)?)),
                 (None, None) => {}
                 (Some(_), None) => return None,
@@ -349,7 +354,7 @@ fn alias_table() -> Vec<(String, String)> {
     v
 }
 
-fn operator_text(o: &Operator, aliases: &[(String, String)]) -> Option<String> {
+fn operator_text(o: &Operator, aliases: &[(String, String)], split_as: bool) -> Option<String> {
     Some(match o {
         Operator::RenderedAlias(ops) => {
             let mut out = vec![];
@@ -359,7 +364,7 @@ fn operator_text(o: &Operator, aliases: &[(String, String)]) -> Option<String> {
             let key = out.join(" ");
             aliases.iter().find(|a| a.0 == key)?.1.clone()
         }
-        Operator::Inline(p) => inline_text(&p.value)?,
+        Operator::Inline(p) => inline_text(&p.value, split_as)?,
         Operator::MultiAggregate(m) => {
             let mut fns = vec![];
             for (n, f) in &m.aggregate_functions {
@@ -400,10 +405,14 @@ impl Renderer {
     }
     /// canonical query text of an AST (None: contains an Error node or something no text produces)
     pub fn query(&self, q: &Query) -> Option<String> {
+        self.query_with(q, false)
+    }
+    /// `split_as`: write `split(x) … as x` even when the output column equals the input column
+    pub fn query_with(&self, q: &Query, split_as: bool) -> Option<String> {
         let mut s = search_text(&q.search)?;
         for o in &q.operators {
             s.push_str(" | ");
-            s.push_str(&operator_text(o, &self.aliases)?);
+            s.push_str(&operator_text(o, &self.aliases, split_as)?);
         }
         Some(s)
     }
@@ -666,6 +675,73 @@ fn minus(a: &[String], b: &[String]) -> Vec<String> {
         }
     }
     out
+}
+
+const GLUE_KEYWORDS: &[&str] = &[
+    "count_distinct", "count", "as", "by", "only", "include", "except", "drop", "from", "on", "nodrop", "noconvert", "regex", "asc", "desc", "dsc", "sort",
+    "fields", "not", "and", "or",
+];
+
+/// is `word` a run of keywords directly followed by `rest` (no blank in between)?
+fn unglue(word: &str) -> Option<(Vec<&'static str>, &str)> {
+    let mut w = word;
+    let mut ks = vec![];
+    loop {
+        match GLUE_KEYWORDS.iter().find(|k| w.starts_with(**k)) {
+            Some(k) => {
+                ks.push(*k);
+                w = &w[k.len()..];
+            }
+            None => break,
+        }
+    }
+    if ks.is_empty() {
+        None
+    } else {
+        Some((ks, w))
+    }
+}
+
+/// the gap is only a keyword written without a blank before the next token (`countby x`, `asx`)
+pub fn gap_is_glued_keyword(orig: &str, canon: &str) -> bool {
+    let (to, po) = lex(orig);
+    let (tc, pc) = lex(canon);
+    if po != pc {
+        return false;
+    }
+    let extra_o = minus(&to, &tc);
+    let mut extra_c = minus(&tc, &to);
+    if extra_o.is_empty() {
+        return false;
+    }
+    for t in &extra_o {
+        let w = match t.strip_prefix("T:") {
+            Some(w) => w,
+            None => return false,
+        };
+        match unglue(w) {
+            Some((ks, rest)) => {
+                for k in ks {
+                    if let Some(n) = norm_word(k) {
+                        if let Some(i) = extra_c.iter().position(|x| *x == n) {
+                            extra_c.remove(i);
+                        }
+                    }
+                }
+                if !rest.is_empty() {
+                    let n = norm_word(rest).unwrap_or_default();
+                    match extra_c.iter().position(|x| *x == n) {
+                        Some(i) => {
+                            extra_c.remove(i);
+                        }
+                        None => return false,
+                    }
+                }
+            }
+            None => return false,
+        }
+    }
+    extra_c.iter().all(|t| DEFAULT_NAMES.contains(&t.as_str()))
 }
 
 /// None = covered; Some(explanation) = text of the original that the AST does not account for
@@ -940,9 +1016,6 @@ pub fn run_binary(args: &[&str], stdin_path: Option<&str>) -> Option<SubRun> {
 
 /* ---------- the check ---------- */
 
-fn on_boundary(q: &str, i: usize) -> bool {
-    i <= q.len() && q.is_char_boundary(i)
-}
 
 /// all P-level oracles on one string; returns (accepted by Pipeline::new, rejected cleanly)
 fn oracles(ctx: &mut Ctx, rep: &mut Rep, rnd: &Renderer, family: &str, q: &str, c: &parse::Cmp) -> (bool, bool) {
@@ -971,15 +1044,18 @@ fn oracles(ctx: &mut Ctx, rep: &mut Rep, rnd: &Renderer, family: &str, q: &str, 
             ok = false;
             rep.fail(ctx, family, q, "C04/rejected-without-diagnostic", "query rejected without any diagnostic", info.clone());
         }
+        // annotate-snippets (the consumer of the Snippet) indexes the source by CHARACTER and panics
+        // when a range ends beyond `source.chars().count()`: "inside the query text" is in chars
+        let nchars = q.chars().count();
         for (title, ranges) in &run.diags {
             for (a, b) in ranges {
-                if !(a <= b && *b <= q.len() && on_boundary(q, *a) && on_boundary(q, *b)) {
+                if !(a <= b && *b <= nchars) {
                     ok = false;
                     let mut i = info.clone();
                     i["diagnostic"] = serde_json::json!(title);
                     i["range"] = serde_json::json!([a, b]);
-                    i["len"] = serde_json::json!(q.len());
-                    rep.fail(ctx, family, q, "C04/diagnostic-range-outside-query", "a diagnostic highlights a range that is not inside the query text / not on char boundaries", i);
+                    i["chars"] = serde_json::json!(nchars);
+                    rep.fail(ctx, family, q, "C04/diagnostic-range-outside-query", "a diagnostic highlights a range that ends beyond the query text (the binary panics in annotate-snippets while printing it)", i);
                 }
             }
         }
@@ -1028,12 +1104,23 @@ fn oracles(ctx: &mut Ctx, rep: &mut Rep, rnd: &Renderer, family: &str, q: &str, 
             rep.fail(ctx, family, q, "C04/canonical-text-reparses-differently", "the canonical rendering of the accepted AST does not parse back to that AST", i);
         }
     }
-    if let Some(gap) = coverage_gap(q, &canon) {
+    let gap = coverage_gap(q, &canon).and_then(|g| {
+        // `split(x) as x`: the explicit output column equals the default
+        match rnd.query_with(ast, true) {
+            Some(c2) if coverage_gap(q, &c2).is_none() => None,
+            _ => Some(g),
+        }
+    });
+    if let Some(gap) = gap {
         good = false;
         let mut i = info.clone();
         i["canonical"] = serde_json::json!(canon);
         i["gap"] = serde_json::json!(gap);
-        rep.fail(ctx, family, q, "C04/trailing-text-ignored", "part of the accepted query text is not reflected in what runs", i);
+        if gap_is_glued_keyword(q, &canon) {
+            rep.fail(ctx, family, q, "C04/keyword-without-word-boundary", "a keyword is recognised as a prefix of a longer word (no word boundary): `countby x` = `count by x`, `asx` = `as x`", i);
+        } else {
+            rep.fail(ctx, family, q, "C04/trailing-text-ignored", "part of the accepted query text is not reflected in what runs", i);
+        }
     }
     if good {
         let a = probe_rows(q, PROBE.as_bytes());
